@@ -113,6 +113,14 @@ mod __verif_c05s {
     fn any_leaf(flipped: bool) -> Leaf {
         Leaf { op: any_cmp_op(), lit: any_lit(), flipped }
     }
+    /// a leaf whose literal is BIGINT or DOUBLE (constructed directly, so no other literal kind is explored)
+    fn any_leaf_i64_or_f64(flipped: bool) -> Leaf {
+        let lit = if kani::any() { Lit::I64(kani::any()) } else { Lit::F64(kani::any()) };
+        Leaf { op: any_cmp_op(), lit, flipped }
+    }
+    fn any_leaf_i64(flipped: bool) -> Leaf {
+        Leaf { op: any_cmp_op(), lit: Lit::I64(kani::any()), flipped }
+    }
     fn leaf_expr(l: &Leaf) -> Expr {
         let col = Box::new(Expr::Column(Column::new("c")));
         let lit = Box::new(lit_expr(l.lit));
@@ -185,65 +193,121 @@ mod __verif_c05s {
         std::mem::forget(w);
     }
 
+    fn bin(a: &Leaf, op: BinaryOp, b: &Leaf) -> Expr {
+        Expr::BinaryExpr { left: Box::new(leaf_expr(a)), op, right: Box::new(leaf_expr(b)) }
+    }
+    fn not(e: Expr) -> Expr {
+        Expr::UnaryExpr { op: UnaryOp::Not, expr: Box::new(e) }
+    }
+
     // @harness tiers=quick,thorough timeout=900
-    // @encodes storage::row_group_pruning::row_group_might_match, storage::row_group_pruning::row_group_definitely_matches (AND / OR / NOT arms)
-    // @bounds as leaf_comparison_full_path; predicate = NOT leaf, leaf AND leaf, leaf OR leaf, NOT (leaf AND leaf), NOT (leaf OR leaf) (shape symbolic), literal kinds BIGINT and DOUBLE
-    // @oracle Kleene AND / OR / NOT over the leaves' three-valued truths
+    // @encodes storage::row_group_pruning::row_group_might_match, storage::row_group_pruning::row_group_definitely_matches (NOT arm)
+    // @bounds as leaf_comparison_full_path; predicate = NOT (c op lit), literal BIGINT or DOUBLE
+    // @oracle Kleene NOT of the leaf's three-valued truth (NOT NULL is NULL: a NULL row is not kept)
     #[kani::proof]
-    #[kani::unwind(4)]
-    fn and_or_not_composition() {
+    #[kani::unwind(3)]
+    fn not_of_a_comparison() {
         let w = any_world();
-        let (a, b) = (any_leaf(false), any_leaf(kani::any()));
-        kani::assume(matches!(a.lit, Lit::I64(_) | Lit::F64(_)) && matches!(b.lit, Lit::I64(_) | Lit::F64(_)));
-        let (ta, tb) = (leaf_tv(&a, w.row), leaf_tv(&b, w.row));
-        let bin = |op: BinaryOp| Expr::BinaryExpr { left: Box::new(leaf_expr(&a)), op, right: Box::new(leaf_expr(&b)) };
-        let not = |e: Expr| Expr::UnaryExpr { op: UnaryOp::Not, expr: Box::new(e) };
-        // the five shapes are iterated concretely
-        let p0 = not(leaf_expr(&a));
-        check(&w, &p0, not3(ta));
-        std::mem::forget(p0);
-        let p1 = bin(BinaryOp::And);
-        check(&w, &p1, and3(ta, tb));
-        std::mem::forget(p1);
-        let p2 = bin(BinaryOp::Or);
-        check(&w, &p2, or3(ta, tb));
-        std::mem::forget(p2);
-        let p3 = not(bin(BinaryOp::And));
-        check(&w, &p3, not3(and3(ta, tb)));
-        std::mem::forget(p3);
-        let p4 = not(bin(BinaryOp::Or));
-        check(&w, &p4, not3(or3(ta, tb)));
-        std::mem::forget(p4);
+        let a = any_leaf_i64_or_f64(kani::any());
+        let p = not(leaf_expr(&a));
+        check(&w, &p, not3(leaf_tv(&a, w.row)));
+        std::mem::forget(p);
         std::mem::forget(w);
     }
 
     // @harness tiers=quick,thorough timeout=900
-    // @encodes storage::row_group_pruning::row_group_might_match, storage::row_group_pruning::row_group_definitely_matches (BETWEEN / IN arms)
-    // @bounds as leaf_comparison_full_path; predicate = c [NOT] BETWEEN lo AND hi, or c [NOT] IN (x, y), BIGINT literals
-    // @oracle BETWEEN = (c >= lo AND c <= hi), IN = (c = x OR c = y) in three-valued logic; NOT negates
+    // @encodes storage::row_group_pruning::row_group_might_match, storage::row_group_pruning::row_group_definitely_matches (AND arm)
+    // @bounds as leaf_comparison_full_path; predicate = (c op1 lit1) AND (c op2 lit2), literals BIGINT or DOUBLE
+    // @oracle Kleene AND of the leaves' three-valued truths
     #[kani::proof]
-    #[kani::unwind(5)]
-    fn between_and_in_list() {
+    #[kani::unwind(3)]
+    fn and_of_two_comparisons() {
+        let w = any_world();
+        let (a, b) = (any_leaf_i64_or_f64(false), any_leaf_i64_or_f64(kani::any()));
+        let p = bin(&a, BinaryOp::And, &b);
+        check(&w, &p, and3(leaf_tv(&a, w.row), leaf_tv(&b, w.row)));
+        std::mem::forget(p);
+        std::mem::forget(w);
+    }
+
+    // @harness tiers=quick,thorough timeout=900
+    // @encodes storage::row_group_pruning::row_group_might_match, storage::row_group_pruning::row_group_definitely_matches (OR arm)
+    // @bounds as and_of_two_comparisons with OR
+    // @oracle Kleene OR
+    #[kani::proof]
+    #[kani::unwind(3)]
+    fn or_of_two_comparisons() {
+        let w = any_world();
+        let (a, b) = (any_leaf_i64_or_f64(false), any_leaf_i64_or_f64(kani::any()));
+        let p = bin(&a, BinaryOp::Or, &b);
+        check(&w, &p, or3(leaf_tv(&a, w.row), leaf_tv(&b, w.row)));
+        std::mem::forget(p);
+        std::mem::forget(w);
+    }
+
+    // @harness tiers=quick,thorough timeout=900
+    // @encodes storage::row_group_pruning::row_group_might_match, storage::row_group_pruning::row_group_definitely_matches (NOT over AND / OR)
+    // @bounds predicate = NOT (leaf AND leaf) or NOT (leaf OR leaf) (connective symbolic), BIGINT literals
+    // @oracle Kleene NOT / AND / OR
+    #[kani::proof]
+    #[kani::unwind(3)]
+    fn not_of_and_or() {
+        let w = any_world();
+        let (a, b) = (any_leaf_i64(false), any_leaf_i64(false));
+        let (ta, tb) = (leaf_tv(&a, w.row), leaf_tv(&b, w.row));
+        let is_and: bool = kani::any();
+        let p = not(bin(&a, if is_and { BinaryOp::And } else { BinaryOp::Or }, &b));
+        check(&w, &p, not3(if is_and { and3(ta, tb) } else { or3(ta, tb) }));
+        std::mem::forget(p);
+        std::mem::forget(w);
+    }
+
+    // @harness tiers=quick,thorough timeout=900
+    // @encodes storage::row_group_pruning::row_group_might_match, storage::row_group_pruning::row_group_definitely_matches (BETWEEN arm)
+    // @bounds as leaf_comparison_full_path; predicate = c [NOT] BETWEEN lo AND hi, BIGINT literals, lo and hi unrelated (lo > hi allowed)
+    // @oracle BETWEEN = (c >= lo AND c <= hi) in three-valued logic; NOT BETWEEN negates
+    #[kani::proof]
+    #[kani::unwind(3)]
+    fn between_predicate() {
         let w = any_world();
         let (x, y): (i64, i64) = kani::any();
         let negated: bool = kani::any();
-        let col = || Box::new(Expr::Column(Column::new("c")));
-        let lit = |v: i64| Expr::Literal(ScalarValue::Int64(v));
-        let neg = |t: Tv| if negated { not3(t) } else { t };
-        let tb = match w.row {
+        let t = match w.row {
             None => Tv::N,
             Some(v) => and3(tv(v >= x), tv(v <= y)),
         };
-        let pb = Expr::Between { expr: col(), low: Box::new(lit(x)), high: Box::new(lit(y)), negated };
-        check(&w, &pb, neg(tb));
-        std::mem::forget(pb);
-        let ti = match w.row {
+        let p = Expr::Between {
+            expr: Box::new(Expr::Column(Column::new("c"))),
+            low: Box::new(Expr::Literal(ScalarValue::Int64(x))),
+            high: Box::new(Expr::Literal(ScalarValue::Int64(y))),
+            negated,
+        };
+        check(&w, &p, if negated { not3(t) } else { t });
+        std::mem::forget(p);
+        std::mem::forget(w);
+    }
+
+    // @harness tiers=quick,thorough timeout=900
+    // @encodes storage::row_group_pruning::row_group_might_match, storage::row_group_pruning::row_group_definitely_matches (IN arm)
+    // @bounds predicate = c [NOT] IN (x, y), BIGINT literals
+    // @oracle IN = (c = x OR c = y) in three-valued logic; NOT IN negates
+    #[kani::proof]
+    #[kani::unwind(4)]
+    fn in_list_predicate() {
+        let w = any_world();
+        let (x, y): (i64, i64) = kani::any();
+        let negated: bool = kani::any();
+        let t = match w.row {
             None => Tv::N,
             Some(v) => or3(tv(v == x), tv(v == y)),
         };
-        let pi = Expr::InList { expr: col(), list: vec![lit(x), lit(y)], negated };
-        check(&w, &pi, neg(ti));
-        std::mem::forget(pi);
+        let p = Expr::InList {
+            expr: Box::new(Expr::Column(Column::new("c"))),
+            list: vec![Expr::Literal(ScalarValue::Int64(x)), Expr::Literal(ScalarValue::Int64(y))],
+            negated,
+        };
+        check(&w, &p, if negated { not3(t) } else { t });
+        std::mem::forget(p);
         std::mem::forget(w);
     }
 
@@ -256,8 +320,7 @@ mod __verif_c05s {
     fn prune_row_groups_lists_the_matching_groups() {
         let w0 = any_world();
         let w1 = any_world();
-        let l = any_leaf(false);
-        kani::assume(matches!(l.lit, Lit::I64(_)));
+        let l = any_leaf_i64(false);
         let pred = leaf_expr(&l);
         let m0 = row_group_might_match(&pred, &w0.rg, &w0.schema);
         let m1 = row_group_might_match(&pred, &w1.rg, &w1.schema);
